@@ -20,8 +20,10 @@ PROPS = {
     "C01": dict(
         lean_modules=["PalomaModel.Props.C01", "PalomaModel.Props.Consts.Bridge", "PalomaModel.Props.Translated.C01"], gen=["Atomicity.lean", "ConstTable.lean", "Translated.lean"],
         harness_test="TestBridge", env={"VERIF_PROP": "C01"},
+        # the fully wired application: nothing an ordinary account can do with the bank credits the escrow
+        extra_tests=[{"test": "TestC01App", "dir": "C01A", "n_quick": 60, "n_thorough": 600}],
         n_quick=120, n_thorough=1500, thorough_seeds=8, timeout_quick=900,
-        spec_ops=["bind", "sentunder", "paidin"],
+        spec_ops=["bind", "sentunder", "paidin", "outside"],
         rule="per case: fresh skyway keeper fixture (5 validators, 3 users, 2 bridged tokens); 40 ops drawn from send / cancel / direct batch build / "
              "fully-voted executed-batch and deposit claims / gas-estimate submissions / tax+limit governance / end-blocks (every-50th-height builds, tally, "
              "estimate election, 10-minute timeouts); 22% of ops carry a fault (the n-th call, n in 1..3, of one collaborator class: chain-info, relayer pick, "
@@ -56,7 +58,7 @@ PROPS = {
         harness_test="TestC02",
         n_quick=150, n_thorough=2000, thorough_seeds=8, timeout_quick=900,
         # every observable of the oracle driver (cursor, observed flags, vote lists, minted total) is the property's own subject
-        spec_ops=["vote", "votex", "endblock", "endblock50", "override", "activate", "send", "build"],
+        spec_ops=["vote", "votex", "endblock", "endblock50", "override", "activate", "send", "build", "votel"],
         rule="one honest event per nonce (deposit or executed-batch claim) plus competing claims that differ from it in exactly one field (compass, token, height, amount, sender, receiver, batch nonce); send / build ops; end-blocks whose time is +2 s, exactly at, one second past or 11 min past an open batch's timeout; one case in three opens with a directed batch -> claim -> tally-around-the-timeout history; "
              "per case: fresh skyway keeper fixture with 5 validators; 45 ops: votes (random validator or bursts of 2-4 validators, next/stale/gapped nonce, up to 3 competing deposit claims per nonce incl. one the handler cannot apply, "
              "occasionally a remote height below an earlier one), end-blocks that first install a fresh power table (equal / tiny / random powers, extra outside power) and then tally (every 4th one at a multiple of 50: validator-nonce catch-up), "
